@@ -4,6 +4,7 @@ package main
 
 import (
 	"fmt"
+	"go/constant"
 	"go/token"
 	"go/types"
 	"strings"
@@ -17,6 +18,7 @@ func newFnExec(w *World, fn *ssa.Function, c *Contract) *FnExec {
 		heap0: heapState{}, params: map[string]Val{}, strConst: map[string]string{}, entryGh: map[string]string{}}
 	if c != nil {
 		fx.checked = c.ArithChecked
+		fx.instantiate = c.Flags["instantiate"] != ""
 	}
 	return fx
 }
@@ -689,7 +691,7 @@ func (fx *FnExec) enterLoop(b *ssa.BasicBlock, li *loopInfo, st *blockState) {
 		if err == nil {
 			li.measure = fx.define(fmt.Sprintf("measure_l%d", li.ordinal), "Int", t)
 			li.hasDec = true
-		} else {
+		} else if !d.Auto {
 			fx.outside = append(fx.outside, fmt.Sprintf("loop %d decreases: %v", li.ordinal, err))
 		}
 	}
@@ -814,7 +816,7 @@ func (fx *FnExec) closeBackEdge(p, head *ssa.BasicBlock, cond string) {
 	}
 	if dec != nil && li.hasDec {
 		t, err := fx.evalMeasure(dec, &evalEnv{fx: fx, heap: fx.cur.heap, oldHeap: fx.heap0, loop: head})
-		if err != nil {
+		if err != nil && !dec.Auto {
 			fx.outside = append(fx.outside, fmt.Sprintf("loop %d decreases at the back edge: %v", li.ordinal, err))
 		}
 		if err == nil {
@@ -852,10 +854,133 @@ func (fx *FnExec) loopInvariants(li *loopInfo) []*CExpr {
 }
 
 func (fx *FnExec) loopDecreases(li *loopInfo) *CExpr {
-	if fx.C == nil {
+	if fx.C != nil {
+		if d := fx.C.LoopDec[li.ordinal]; d != nil {
+			return d
+		}
+	}
+	if fx.autoDec == nil {
+		fx.autoDec = map[int]*CExpr{}
+	}
+	if d, ok := fx.autoDec[li.ordinal]; ok {
+		return d
+	}
+	d := fx.deriveMeasure(li)
+	fx.autoDec[li.ordinal] = d
+	return d
+}
+
+// deriveMeasure: a termination measure read off the loop's own guard. A loop whose head ends in
+// `if x < y` (<=, >, >=) over integers gets the measure y - x (its distance from the bound); the two
+// operands are written down as a contract expression (locals by name, fields of parameters, len) so
+// that they are evaluated like any written decreases clause: at the head, and again at every back
+// edge, where the measure must have become smaller. A loop without such a guard (for { ... }) gets no
+// measure: its termination is not claimed unless a decreases clause is written for it.
+func (fx *FnExec) deriveMeasure(li *loopInfo) *CExpr {
+	if len(li.head.Instrs) == 0 {
 		return nil
 	}
-	return fx.C.LoopDec[li.ordinal]
+	iff, ok := li.head.Instrs[len(li.head.Instrs)-1].(*ssa.If)
+	if !ok {
+		return nil
+	}
+	bo, ok := iff.Cond.(*ssa.BinOp)
+	if !ok {
+		return nil
+	}
+	if b, ok := bo.X.Type().Underlying().(*types.Basic); !ok || b.Info()&types.IsInteger == 0 {
+		return nil
+	}
+	// the guard must be the condition for staying in the loop
+	stay := len(li.head.Succs) == 2 && li.body[li.head.Succs[0].Index] && !li.body[li.head.Succs[1].Index]
+	if !stay {
+		return nil
+	}
+	x, okx := measureText(bo.X, 0)
+	y, oky := measureText(bo.Y, 0)
+	if !okx || !oky {
+		return nil
+	}
+	var text string
+	switch bo.Op {
+	case token.LSS:
+		text = "(" + y + ") - (" + x + ")"
+	case token.LEQ:
+		text = "(" + y + ") - (" + x + ") + 1"
+	case token.GTR:
+		text = "(" + x + ") - (" + y + ")"
+	case token.GEQ:
+		text = "(" + x + ") - (" + y + ") + 1"
+	default:
+		return nil
+	}
+	e, err := parseCExpr(text)
+	if err != nil {
+		return nil
+	}
+	return &CExpr{Text: text + " (derived from the loop's guard)", ast: e, Props: []string{"C05"}, Auto: true}
+}
+
+// measureText writes an SSA value as a contract expression, where it has such a form.
+func measureText(v ssa.Value, depth int) (string, bool) {
+	if depth > 4 {
+		return "", false
+	}
+	switch x := v.(type) {
+	case *ssa.Const:
+		if x.Value != nil && x.Value.Kind() == constant.Int {
+			s := x.Value.ExactString()
+			if strings.HasPrefix(s, "-") {
+				return "(0 - " + s[1:] + ")", true
+			}
+			return s, true
+		}
+	case *ssa.Parameter:
+		return x.Name(), true
+	case *ssa.Phi:
+		if x.Comment != "" && isIdent(x.Comment) {
+			return x.Comment, true
+		}
+	case *ssa.UnOp:
+		if x.Op == token.MUL {
+			if fa, ok := x.X.(*ssa.FieldAddr); ok {
+				base, ok := measureText(fa.X, depth+1)
+				if !ok {
+					return "", false
+				}
+				if pt, ok := fa.X.Type().Underlying().(*types.Pointer); ok {
+					if st, ok := pt.Elem().Underlying().(*types.Struct); ok {
+						return base + "." + st.Field(fa.Field).Name(), true
+					}
+				}
+			}
+		}
+	case *ssa.Call:
+		if bi, ok := x.Call.Value.(*ssa.Builtin); ok && bi.Name() == "len" && len(x.Call.Args) == 1 {
+			a, ok := measureText(x.Call.Args[0], depth+1)
+			if ok {
+				return "len(" + a + ")", true
+			}
+		}
+	case *ssa.BinOp:
+		if x.Op == token.ADD || x.Op == token.SUB {
+			a, ok1 := measureText(x.X, depth+1)
+			b, ok2 := measureText(x.Y, depth+1)
+			if ok1 && ok2 {
+				return "(" + a + " " + x.Op.String() + " " + b + ")", true
+			}
+		}
+	}
+	return "", false
+}
+
+func isIdent(s string) bool {
+	for i, r := range s {
+		if !(r == '_' || r >= 'a' && r <= 'z' || r >= 'A' && r <= 'Z' || i > 0 && r >= '0' && r <= '9') {
+			return false
+		}
+	}
+	return s != ""
 }
 
 // ---------------------------------------------------------------- instructions
@@ -1066,6 +1191,7 @@ func (fx *FnExec) execIndexAddr(x *ssa.IndexAddr) {
 	case *types.Slice:
 		s := fx.term(base)
 		fx.oblige("idx", "(and (<= 0 "+idx+") (< "+idx+" (s.len "+s+")))", x, "index in range")
+		fx.instantiateAt(s, idx)
 		fx.setReg(x, Val{P: &Place{Kind: PElem, Arr: "(s.arr " + s + ")", Idx: "(+ (s.off " + s + ") " + idx + ")", Elem: t.Elem()}})
 	case *types.Pointer:
 		arr := t.Elem().Underlying().(*types.Array)
